@@ -62,9 +62,13 @@ macro_rules! harnesses {
 /// A named obligation inside a harness. The message is what the driver keys on.
 #[macro_export]
 macro_rules! ob {
-    ($name:literal, $cond:expr) => {
+    ($name:literal, $cond:expr) => {{
+        // reachability witness AT the obligation: an obligation that no execution reaches (e.g. behind a verifier-internal
+        // assumption) would pass vacuously; the driver requires every cover to be SATISFIED
+        #[cfg(kani)]
+        kani::cover!(true, "VACUITY-GUARD");
         assert!($cond, concat!("OB:", $name))
-    };
+    }};
 }
 
 /// Reachability witness at the call site (distinct source location per cover, so Kani reports each
